@@ -414,8 +414,10 @@ func (s *Server) attachClient(cl *Client, listener string) error {
 	if err != nil {
 		return fmt.Errorf("read connection: %w", err)
 	}
+	verifYield("attach.afterReadConnect", cl)
 
 	cl.ParseConnect(listener, pk)
+	verifYield("attach.beforeLimitCheck", cl)
 	if atomic.LoadInt64(&s.Info.ClientsConnected) >= s.Options.Capabilities.MaximumClients {
 		if cl.Properties.ProtocolVersion < 5 {
 			s.SendConnack(cl, packets.ErrServerUnavailable, false, nil)
@@ -451,18 +453,23 @@ func (s *Server) attachClient(cl *Client, listener string) error {
 
 	atomic.AddInt64(&s.Info.ClientsConnected, 1)
 	defer atomic.AddInt64(&s.Info.ClientsConnected, -1)
+	verifYield("attach.afterCountIncrement", cl)
 
 	s.hooks.OnSessionEstablish(cl, pk)
 
 	sessionPresent := s.inheritClientSession(pk, cl)
+	verifYield("attach.afterInherit", cl)
 	s.Clients.Add(cl) // [MQTT-4.1.0-1]
+	verifYield("attach.afterClientsAdd", cl)
 
 	err = s.SendConnack(cl, code, sessionPresent, nil) // [MQTT-3.1.4-5] [MQTT-3.2.0-1] [MQTT-3.2.0-2] &[MQTT-3.14.0-1]
 	if err != nil {
 		return fmt.Errorf("ack connection packet: %w", err)
 	}
+	verifYield("attach.afterConnack", cl)
 
 	s.loop.willDelayed.Delete(cl.ID) // [MQTT-3.1.3-9]
+	verifYield("attach.afterWillDelete", cl)
 
 	if sessionPresent {
 		err = cl.ResendInflightMessages(true)
@@ -472,8 +479,10 @@ func (s *Server) attachClient(cl *Client, listener string) error {
 	}
 
 	s.hooks.OnSessionEstablished(cl, pk)
+	verifYield("attach.beforeRead", cl)
 
 	err = cl.Read(s.receivePacket)
+	verifYield("attach.afterRead", cl)
 	if err != nil {
 		s.sendLWT(cl)
 		cl.Stop(err)
@@ -481,6 +490,7 @@ func (s *Server) attachClient(cl *Client, listener string) error {
 		cl.Properties.Will = Will{} // [MQTT-3.14.4-3] [MQTT-3.1.2-10]
 	}
 	s.Log.Debug("client disconnected", "error", err, "client", cl.ID, "remote", cl.Net.Remote, "listener", listener)
+	verifYield("attach.beforeCleanup", cl)
 
 	expire := (cl.Properties.ProtocolVersion == 5 && cl.Properties.Props.SessionExpiryInterval == 0) || (cl.Properties.ProtocolVersion < 5 && cl.Properties.Clean)
 	s.hooks.OnDisconnect(cl, err, expire)
@@ -563,12 +573,14 @@ func (s *Server) inheritClientSession(pk packets.Packet, cl *Client) bool {
 	if existing, ok := s.Clients.Get(cl.ID); ok {
 		_ = s.DisconnectClient(existing, packets.ErrSessionTakenOver)                                   // [MQTT-3.1.4-3]
 		if pk.Connect.Clean || (existing.Properties.Clean && existing.Properties.ProtocolVersion < 5) { // [MQTT-3.1.2-4] [MQTT-3.1.4-4]
+			verifYield("inherit.afterDisconnectExisting", cl)
 			s.UnsubscribeClient(existing)
 			existing.ClearInflights()
 			existing.State.isTakenOver.Store(true) // only set isTakenOver after unsubscribe has occurred
 			return false                           // [MQTT-3.2.2-3]
 		}
 
+		verifYield("inherit.afterDisconnectExisting", cl)
 		existing.State.isTakenOver.Store(true)
 		if existing.State.Inflight.Len() > 0 {
 			cl.State.Inflight = existing.State.Inflight.Clone() // [MQTT-3.1.2-5]
@@ -1110,6 +1122,7 @@ func (s *Server) publishToClient(cl *Client, sub packets.Subscription, pk packet
 	if cl.Net.Conn == nil || cl.Closed() {
 		return out, packets.CodeDisconnect
 	}
+	verifYield("publish.beforeQueue", cl)
 
 	select {
 	case cl.State.outbound <- &out:
@@ -1442,6 +1455,7 @@ func (s *Server) DisconnectClient(cl *Client, code packets.Code) error {
 	// interested if the write packet fails due to a closed connection (as we are closing it).
 	err := cl.WritePacket(out)
 	if !s.Options.Capabilities.Compatibilities.PassiveClientDisconnect {
+		verifYield("disconnect.beforeStop", cl)
 		cl.Stop(code)
 		if code.Code >= packets.ErrUnspecifiedError.Code {
 			return code
@@ -1509,6 +1523,7 @@ func (s *Server) publishSysTopics() {
 // Close attempts to gracefully shut down the server, all listeners, clients, and stores.
 func (s *Server) Close() error {
 	close(s.done)
+	verifYield("close.afterDone", nil)
 	s.Log.Info("gracefully stopping server")
 	s.Listeners.CloseAll(s.closeListenerClients)
 	s.hooks.OnStopped()
@@ -1552,6 +1567,7 @@ func (s *Server) sendLWT(cl *Client) {
 	if cl.Properties.Will.WillDelayInterval > 0 {
 		pk.Connect.WillProperties.WillDelayInterval = cl.Properties.Will.WillDelayInterval
 		pk.Expiry = time.Now().Unix() + int64(pk.Connect.WillProperties.WillDelayInterval)
+		verifYield("lwt.beforeDelayedAdd", cl)
 		s.loop.willDelayed.Add(cl.ID, pk)
 		return
 	}
